@@ -19,6 +19,7 @@
 #include <unifex/then.hpp>
 
 #include <algorithm>
+#include <thread>
 #include <memory>
 #include <vector>
 
@@ -289,6 +290,187 @@ void find_case(const char* pname, Sched sched, size_t n, const std::vector<size_
               (long)(*res - b), (long)(expect - b));
 }
 
+// execution-policy composition ---------------------------------------------------------------------
+// A bulk source that *honours* the policy its receiver advertises: when the policy permits parallel execution it calls
+// set_next from three threads that rendezvous so that calls really overlap, otherwise from one thread in index order.
+// Monitors: (1) the policy bulk_transform advertises upstream is the intersection of its function's policy and the
+// downstream receiver's policy (a function or receiver that did not permit parallel execution is never run concurrently,
+// one that did not permit unsequenced execution... is told apart only by rule 1), (2) no function with a non-parallel
+// policy and no receiver with a non-parallel policy observes overlapping calls, (3) every index arrives exactly once.
+template <class P>
+constexpr int pol_bits() {
+  using U = unifex::remove_cvref_t<P>;
+  if constexpr (std::is_same_v<U, unifex::parallel_unsequenced_policy>)
+    return 3;
+  else if constexpr (std::is_same_v<U, unifex::unsequenced_policy>)
+    return 2;
+  else if constexpr (std::is_same_v<U, unifex::parallel_policy>)
+    return 1;
+  else
+    return 0;
+}
+long g_policy_cases = 0, g_policy_parallel_runs = 0, g_policy_overlaps_seen = 0;
+
+struct psrc_state {
+  std::atomic<int> advertised{-1};
+};
+struct policy_source {
+  size_t n;
+  psrc_state* st;
+  template <template <typename...> class Variant, template <typename...> class Tuple>
+  using value_types = Variant<Tuple<>>;
+  template <template <typename...> class Variant, template <typename...> class Tuple>
+  using next_types = Variant<Tuple<std::size_t>>;
+  template <template <typename...> class Variant>
+  using error_types = Variant<std::exception_ptr>;
+  static constexpr bool sends_done = false;
+  template <class R>
+  struct op {
+    R r;
+    size_t n;
+    psrc_state* st;
+    void start() & noexcept {
+      using pol = decltype(unifex::get_execution_policy(r));
+      constexpr int bits = pol_bits<pol>();
+      st->advertised.store(bits);
+      if constexpr ((bits & 1) != 0) {
+        std::atomic<int> arrived{0};
+        std::vector<std::thread> ts;
+        for (int t = 0; t < 3; ++t)
+          ts.emplace_back([&, t] {
+            arrived.fetch_add(1);
+            while (arrived.load() < 3)
+              sched_yield();
+            for (size_t i = (size_t)t; i < n; i += 3)
+              unifex::set_next(r, i);
+          });
+        for (auto& t : ts)
+          t.join();
+        ++g_policy_parallel_runs;
+      } else {
+        for (size_t i = 0; i < n; ++i)
+          unifex::set_next(r, i);
+      }
+      unifex::set_value(std::move(r));
+    }
+  };
+  template <class R>
+  friend op<unifex::remove_cvref_t<R>> tag_invoke(unifex::tag_t<unifex::connect>, policy_source s, R&& r) {
+    return op<unifex::remove_cvref_t<R>>{(R &&) r, s.n, s.st};
+  }
+};
+
+struct overlap_probe {
+  std::atomic<int> in{0}, overlap{0};
+  std::atomic<long> calls{0};
+  void enter() noexcept {
+    if (in.fetch_add(1, std::memory_order_acq_rel) != 0)
+      overlap.fetch_add(1, std::memory_order_relaxed);
+    calls.fetch_add(1, std::memory_order_relaxed);
+    // stay inside long enough for a concurrent caller to be seen
+    for (int i = 0; i < 50; ++i)
+      sched_yield();
+  }
+  void leave() noexcept { in.fetch_sub(1, std::memory_order_acq_rel); }
+};
+
+template <class RP>
+struct policy_rcv {
+  overlap_probe* pr;
+  std::vector<std::atomic<int>>* hits;
+  std::atomic<int>* terminal;
+  void set_next(std::size_t i) & noexcept {
+    pr->enter();
+    if (i < hits->size())
+      (*hits)[i].fetch_add(1, std::memory_order_relaxed);
+    else
+      violation("C17:policy:index-out-of-range", "%zu", i);
+    pr->leave();
+  }
+  void set_value() && noexcept {
+    if (terminal->exchange(1))
+      violation("C01:policy:completed-twice", "bulk_transform stack");
+  }
+  template <class E>
+  void set_error(E&&) && noexcept {
+    terminal->exchange(3);
+  }
+  void set_done() && noexcept { terminal->exchange(2); }
+  friend RP tag_invoke(unifex::tag_t<unifex::get_execution_policy>, const policy_rcv&) noexcept { return {}; }
+};
+
+template <class F1, class F2, class RP>
+void policy_case(size_t n) {
+  constexpr int b1 = pol_bits<F1>(), b2 = pol_bits<F2>(), br = pol_bits<RP>();
+  constexpr int expect = b1 & b2 & br;
+  psrc_state st;
+  overlap_probe p1, p2, pr;
+  std::vector<std::atomic<int>> hits(n);
+  std::atomic<int> terminal{0};
+  {
+    auto snd = unifex::bulk_transform(
+        unifex::bulk_transform(
+            policy_source{n, &st},
+            [&p1](std::size_t i) noexcept {
+              p1.enter();
+              p1.leave();
+              return i;
+            },
+            F1{}),
+        [&p2](std::size_t i) noexcept {
+          p2.enter();
+          p2.leave();
+          return i;
+        },
+        F2{});
+    auto op = unifex::connect(std::move(snd), policy_rcv<RP>{&pr, &hits, &terminal});
+    unifex::start(op);
+  }
+  ++g_policy_cases;
+  if (st.advertised.load() != expect)
+    violation("C17:policy:advertised-policy-is-not-the-intersection",
+              "bulk_transform(bulk_transform(src, f1:%d), f2:%d) -> receiver:%d advertises %d upstream, intersection is %d "
+              "(bit0 parallel, bit1 unsequenced)", b1, b2, br, st.advertised.load(), expect);
+  if (!(b1 & 1) && p1.overlap.load())
+    violation("C17:policy:function-run-concurrently-beyond-its-policy", "inner function policy %d, %d overlapping calls", b1,
+              p1.overlap.load());
+  if (!(b2 & 1) && p2.overlap.load())
+    violation("C17:policy:function-run-concurrently-beyond-its-policy", "outer function policy %d, %d overlapping calls", b2,
+              p2.overlap.load());
+  if (!(br & 1) && pr.overlap.load())
+    violation("C17:policy:receiver-set_next-concurrent-beyond-its-policy", "receiver policy %d, %d overlapping calls", br,
+              pr.overlap.load());
+  g_policy_overlaps_seen += p1.overlap.load() + p2.overlap.load() + pr.overlap.load();
+  if (terminal.load() != 1)
+    violation("C17:policy:unexpected-terminal", "terminal=%d", terminal.load());
+  for (size_t i = 0; i < n; ++i)
+    if (hits[i].load() != 1) {
+      violation("C17:policy:index-not-visited-exactly-once", "index %zu: %d", i, hits[i].load());
+      break;
+    }
+}
+
+template <class F1, class F2>
+void policy_cases_r(size_t n) {
+  policy_case<F1, F2, unifex::sequenced_policy>(n);
+  policy_case<F1, F2, unifex::unsequenced_policy>(n);
+  policy_case<F1, F2, unifex::parallel_policy>(n);
+  policy_case<F1, F2, unifex::parallel_unsequenced_policy>(n);
+}
+template <class F1>
+void policy_cases_f2(size_t n) {
+  policy_cases_r<F1, unifex::sequenced_policy>(n);
+  policy_cases_r<F1, unifex::unsequenced_policy>(n);
+  policy_cases_r<F1, unifex::parallel_policy>(n);
+  policy_cases_r<F1, unifex::parallel_unsequenced_policy>(n);
+}
+void policy_all(size_t n) {
+  policy_cases_f2<unifex::sequenced_policy>(n);
+  policy_cases_f2<unifex::unsequenced_policy>(n);
+  policy_cases_f2<unifex::parallel_policy>(n);
+  policy_cases_f2<unifex::parallel_unsequenced_policy>(n);
+}
+
 }  // namespace
 
 int main(int argc, char** argv) {
@@ -330,6 +512,9 @@ int main(int argc, char** argv) {
         find_case<unifex::parallel_policy>("par", pool.get_scheduler(), (size_t)n, m);
       }
     }
+  } else if (a.mode == "policy") {
+    for (size_t n : {0u, 1u, 7u, 24u})
+      policy_all(n);
   } else {
     fprintf(stderr, "unknown mode\n");
     return 2;
@@ -337,6 +522,9 @@ int main(int argc, char** argv) {
   stat_add("bulk_cases", g_cases);
   stat_add("bulk_stop_cases", g_stop_cases);
   stat_add("bulk_indices_visited", g_bulk_indices);
+  stat_add("policy_cases", g_policy_cases);
+  stat_add("policy_parallel_runs", g_policy_parallel_runs);
+  stat_add("policy_overlapping_calls_seen", g_policy_overlaps_seen);
   stat_add("find_if_cases", g_find_cases);
   stat_add("find_if_predicate_calls", g_pred_calls);
   report();
